@@ -40,6 +40,7 @@ def generate(rng, tier):
         cfg['p_dir'] = rng.choice([0.08, 0.2])
         cfg['p_inline_dir'] = rng.choice([0.0, 0.15])
     cfg['p_indent'] = rng.choice([0.0, 0.3, 0.6])
+    cfg['p_deep'] = rng.choice([0.0, 0.6])
     cfg['p_header_prose'] = rng.choice([0.0, 0.5])
     if rng.random() < 0.3:
         cfg['forms'] += ['coroexpr']
@@ -48,6 +49,17 @@ def generate(rng, tier):
         cfg['async_forms'] = list(gen.ASYNC_FORMS)
         cfg['p_async'] = 0.5 if flavour == 'async' else 0.25
     world = gen.gen_world(rng, cfg)
+    if flavour == 'sync' and cfg['p_indent'] == 0.0 and rng.random() < 0.5:
+        # "precisely the statements not disabled by a directive run": regions switched off by a
+        # block or inline directive (in every spelling of the prefix), the rest runs as written
+        for dtid, dt, mod in W.iter_doctests(world):
+            if rng.random() < 0.5:
+                gen.add_skips(rng, dt['steps'])
+                gen.fix_chunk_starts(dt['steps'])
+    for dtid, dt, mod in W.iter_doctests(world):
+        for st in dt['steps']:
+            if st['form'] in ('tq', 'tqprint') and rng.random() < 0.5:
+                st['flush'] = True      # the string's own lines start in the prompt's column
     ids = gen.doctest_ids(world)[:6]
     mods = [m['relpath'] for m in world['modules']]
     ops = []
